@@ -259,7 +259,7 @@ Proof. now destruct x. Qed.
 Lemma is_sep_lit_eq x : is_sep_lit x = true -> x = SLit [sep].
 Proof. destruct x; try easy. cbn. intros H. apply str_eqb_eq in H. now subst. Qed.
 Lemma is_empty_lit_eq x : is_empty_lit x = true -> x = SLit [].
-Proof. destruct x as [| |s| | | | | |]; try easy. now destruct s. Qed.
+Proof. destruct x as [| |s| | | | | | | | | | | |]; try easy. now destruct s. Qed.
 
 Lemma abs_like_segs e x : abs_like x = true -> segs (seval e x) = segs (e_abs e).
 Proof.
@@ -267,30 +267,48 @@ Proof.
   apply is_SAbs_eq in H1. apply is_sep_lit_eq in H2. subst. cbn [seval]. apply segs_snoc_sep.
 Qed.
 
+Lemma is_dot_lit_eq x : is_dot_lit x = true -> x = SLit [dotc].
+Proof. destruct x; try easy. cbn. intros H. apply str_eqb_eq in H. now subst. Qed.
+
 Lemma root_like_segs e x : root_like x = true -> segs (seval e x) = segs (e_root e).
 Proof.
-  destruct x; try easy. cbn [root_like]. intros H. apply is_SRoot_eq in H. subst.
-  cbn [seval]. apply segs_rstrip.
+  induction x as [| | | | a IHa | | | | | | | |c IHc d IHd a IHa b IHb| |]; try easy; cbn [root_like]; intros H.
+  - cbn [seval]. rewrite segs_rstrip. now apply IHa.
+  - apply andb_true_iff in H as [H Hb]. apply andb_true_iff in H as [H Ha]. apply andb_true_iff in H as [Hc Hd].
+    apply is_dot_lit_eq in Hd. apply is_empty_lit_eq in Ha. subst. cbn [seval].
+    destruct (str_eqb (seval e c) [dotc]) eqn:E.
+    + apply str_eqb_eq in E. rewrite <- (IHc Hc), E. reflexivity.
+    + now apply IHb.
 Qed.
 
+(** what a recognised prefix expression evaluates to: a string ending in a separator with the root's segments, or the
+    empty string when the root has no segments at all (the root directory itself) *)
 Lemma root_sep_like_sem e y : is_abs (e_root e) = true -> root_sep_like y = true ->
-  ends_sep (seval e y) = true /\ segs (seval e y) = segs (e_root e).
+  (ends_sep (seval e y) = true /\ segs (seval e y) = segs (e_root e)) \/
+  (seval e y = [] /\ segs (e_root e) = []).
 Proof.
-  intros Hr. destruct y as [| | |r s| |r s| |c a b|]; try easy; cbn [root_sep_like]; intros H.
-  - apply andb_true_iff in H as [H1 H2]. apply is_sep_lit_eq in H2. subst. cbn [seval].
+  intros Hr. destruct y as [| | |r s| |r s| |c a b| | | | | |g a b |]; try easy; cbn [root_sep_like]; intros H.
+  - left. apply andb_true_iff in H as [H1 H2]. apply is_sep_lit_eq in H2. subst. cbn [seval].
     split; [apply ends_sep_snoc|]. rewrite segs_snoc_sep. now apply root_like_segs.
-  - apply andb_true_iff in H as [H1 H2]. apply is_SRoot_eq in H1. apply is_empty_lit_eq in H2. subst.
+  - left. apply andb_true_iff in H as [H1 H2]. apply is_SRoot_eq in H1. apply is_empty_lit_eq in H2. subst.
     cbn [seval]. unfold pjoin. cbn [starts_sep].
     destruct (e_root e) as [|c0 r0] eqn:E; [easy|].
     destruct (ends_sep (c0 :: r0)) eqn:Ee.
     + rewrite app_nil_r. now split.
     + split; [apply ends_sep_snoc | apply segs_snoc_sep].
-  - apply andb_true_iff in H as [H12 H3]. apply andb_true_iff in H12 as [H1 H2].
-    apply is_SRoot_eq in H1, H2. subst. destruct b as [| | |r s| | | | |]; try easy.
+  - left. apply andb_true_iff in H as [H12 H3]. apply andb_true_iff in H12 as [H1 H2].
+    apply is_SRoot_eq in H1, H2. subst. destruct b as [| | |r s| | | | | | | | | | |]; try easy.
     apply andb_true_iff in H3 as [H3 H4]. apply is_SRoot_eq in H3. apply is_sep_lit_eq in H4. subst.
     cbn [seval]. destruct (ends_sep (e_root e)) eqn:Ee.
     + now split.
     + split; [apply ends_sep_snoc | apply segs_snoc_sep].
+  - apply andb_true_iff in H as [H12 H3]. apply andb_true_iff in H12 as [H1 H2].
+    apply is_empty_lit_eq in H2. subst. destruct b as [| | |r s| | | | | | | | | | |]; try easy.
+    apply andb_true_iff in H3 as [H3 H4]. apply is_sep_lit_eq in H4. subst.
+    pose proof (root_like_segs e g H1) as Hg. cbn [seval].
+    destruct (seval e g) as [|c0 g0] eqn:Eg.
+    + right. split; [reflexivity|]. now rewrite <- Hg.
+    + left. split; [apply ends_sep_snoc|]. rewrite segs_snoc_sep. now apply root_like_segs.
 Qed.
 
 Lemma seg_prefix_refl_eq a b : a = b -> seg_prefix a b.
@@ -299,7 +317,7 @@ Proof. intros ->. exists []. now rewrite app_nil_r. Qed.
 Lemma is_common_abs_root_sem e x : is_common_abs_root x = true ->
   seg_prefix (segs (seval e x)) (segs (e_abs e)).
 Proof.
-  destruct x as [| | | | | |a b| |]; try easy. cbn [is_common_abs_root]. intros H.
+  destruct x as [| | | | | |a b| | | | | | | |]; try easy. cbn [is_common_abs_root]. intros H.
   cbn [seval]. rewrite segs_commonpath2.
   apply orb_true_iff in H as [H|H]; apply andb_true_iff in H as [H1 H2].
   - apply is_SAbs_eq in H1. subst. cbn [seval]. apply lcp_prefix_l.
@@ -332,9 +350,10 @@ Proof.
   - subst. easy.
   - apply andb_true_iff in Hok as [Hp Hi]. subst pol. now apply (eq_inside_sem e a b).
   - apply andb_true_iff in Hok as [Hpa Hb]. apply andb_true_iff in Hpa as [Hp Ha]. subst pol.
-    destruct (root_sep_like_sem e b Hr Hb) as [He Hs].
-    pose proof (prefix_ending_sep_segs _ _ He Hev) as Hpre.
-    now rewrite Hs, (abs_like_segs e a Ha) in Hpre.
+    destruct (root_sep_like_sem e b Hr Hb) as [[He Hs]|[_ Hs]].
+    + pose proof (prefix_ending_sep_segs _ _ He Hev) as Hpre.
+      now rewrite Hs, (abs_like_segs e a Ha) in Hpre.
+    + rewrite Hs. now exists (segs (e_abs e)).
   - easy.
   - apply (IH (negb pol)); [exact Hok|]. rewrite <- Hev. now rewrite negb_involutive.
   - destruct pol.
@@ -357,6 +376,7 @@ Theorem segprefix_guard_sound :
     inside (abspath cwd root_arg) a.
 Proof.
   intros g cwd root_arg path a Hs Hc Hres. unfold resolve in Hres.
+  unfold raise_sound in Hs. apply andb_true_iff in Hs as [_ Hs].
   set (root := abspath cwd root_arg) in *. set (a0 := abspath cwd (pjoin root path)) in *.
   destruct (geval {| e_abs := a0; e_root := root; e_con := true |} g) eqn:Eg; [easy|].
   inversion Hres; subst a. clear Hres.
@@ -441,6 +461,66 @@ Proof.
   exists (s2l "/w"), (s2l "/t/root"), (s2l "../root_evil/secret.txt"), (s2l "/t/root_evil/secret.txt").
   split; [reflexivity|]. split; [vm_compute; reflexivity|].
   intros H. apply seg_prefixb_spec in H. vm_compute in H. discriminate.
+Qed.
+
+(** Round 5 (seeded c18_8): the containment test made on NORMALISED NAMES instead of on the absolute strings, through
+    the helpers the case-insensitive virtual file systems use:
+      root = _norm_name(self.path); name = _norm_name(abs_path)
+      raise unless name == root or name.startswith(_folder_prefix(root))
+    with _norm_name(x) = normpath(x.replace('\\','/')).replace('\\','/').casefold() and
+    _folder_prefix(f) = (g + '/' if g else '') for g = ('' if f == '.' else f).rstrip('/').
+    The comparison is component-wise, but on case-folded strings, while the path handed to the OS is the unfolded one:
+    on a case-sensitive disk a sibling that differs from the root (or from an ancestor of it) only in case is outside
+    and is let through. *)
+Definition norm_name (x : sx) : sx := SFold (SUnbs (SNorm (SUnbs x))).
+Definition folder_prefix (f : sx) : sx :=
+  let g := SRStrip (SIfEq f (SLit [dotc]) (SLit []) f) in SIfEmpty g (SLit []) (SCat g sepl).
+Definition guard_casefold : gx :=
+  GAnd GConstrain (GAnd (GNot (GEq (norm_name SAbs) (norm_name SRoot)))
+                        (GNot (GStarts (norm_name SAbs) (folder_prefix (norm_name SRoot))))).
+(** the same test on the strings themselves (what the helpers compute when nothing is folded) is the sound form *)
+Definition guard_folder_prefix_unfolded : gx :=
+  GAnd GConstrain (GAnd (GNot (GEq SAbs SRoot)) (GNot (GStarts SAbs (folder_prefix SRoot)))).
+
+Theorem casefold_guard_refuted :
+  raise_sound guard_casefold = false /\
+  raise_sound guard_folder_prefix_unfolded = true /\
+  (exists cwd root_arg path a,
+    is_abs cwd = true /\ resolve guard_casefold true cwd root_arg path = Ok a /\
+    ~ seg_prefix (segs (abspath cwd root_arg)) (segs a)) /\
+  (* an ancestor that differs in case only, reached by an absolute name *)
+  resolve guard_casefold true (s2l "/w") (s2l "/t/Content/maps") (s2l "/t/content/maps/secret.txt")
+    = Ok (s2l "/t/content/maps/secret.txt") /\
+  (* what the fault keeps refusing: other siblings, the sibling whose name extends the root's, the parent *)
+  resolve guard_casefold true (s2l "/w") (s2l "/t/Maps") (s2l "../other/x") = Escape /\
+  resolve guard_casefold true (s2l "/w") (s2l "/t/Maps") (s2l "../Maps_backup/x") = Escape /\
+  resolve guard_casefold true (s2l "/w") (s2l "/t/Maps") (s2l "..") = Escape /\
+  resolve guard_casefold true (s2l "/w") (s2l "/t/Maps") (s2l "sub/x.txt") = Ok (s2l "/t/Maps/sub/x.txt") /\
+  (* the unfolded comparison refuses the case variants *)
+  resolve guard_folder_prefix_unfolded true (s2l "/w") (s2l "/t/Maps") (s2l "../maps/secret.txt") = Escape /\
+  resolve guard_folder_prefix_unfolded true (s2l "/w") (s2l "/t/Maps") (s2l "..\MAPS\secret.txt")
+    = Ok (s2l "/t/Maps/..\MAPS\secret.txt").
+Proof.
+  split; [reflexivity|]. split; [reflexivity|]. split.
+  - exists (s2l "/w"), (s2l "/t/Maps"), (s2l "../maps/secret.txt"), (s2l "/t/maps/secret.txt").
+    split; [reflexivity|]. split; [vm_compute; reflexivity|].
+    intros H. apply seg_prefixb_spec in H. vm_compute in H. discriminate.
+  - vm_compute. repeat split.
+Qed.
+
+(** Round 5: a transformation the guard language has no meaning for is written down as [SOpaque name x] and never
+    accepted, wherever it stands — also where the recogniser [ok_when] would not have looked (second example). *)
+Definition guard_strip_eq : gx :=
+  GAnd GConstrain (GAnd (GNot (GEq (SOpaque (s2l "strip") SAbs) SRoot))
+                        (GNot (GStarts SAbs (SCat (SRStrip SRoot) sepl)))).
+Theorem opaque_never_accepted :
+  (forall g, raise_sound g = true -> gx_plain g = true /\ ok_when false g = true) /\
+  raise_sound guard_strip_eq = false /\
+  (let g := GNot (GAnd (GEq SAbs SRoot) (GEq (SOpaque (s2l "realpath") SAbs) SRoot)) in
+   ok_when false g = true /\ raise_sound g = false).
+Proof.
+  split; [|split; [reflexivity|split; reflexivity]].
+  intros g H. unfold raise_sound in H. now apply andb_true_iff in H.
 Qed.
 
 (** Non-vacuity: the sound forms do serve files inside the root (and the root itself). *)
